@@ -182,6 +182,43 @@ type c02 struct {
 }
 
 // value checks one (method, value) through every entry point.
+// Decoy is text that looks like pieces of encoded values of other types.
+const Decoy = `e-07 1e-06 -0 e+21 \u003c \" \\ null true ," : {"k":1} [1,2] % %d 0.0000001 NaN data:application/cbor;base64,`
+
+func (c *c02) neighbours(f seqx.Field) {
+	c.idx++
+	if c.idx%int64(c.n) != int64(c.shard) {
+		return
+	}
+	before := seqx.Field{M: "Str", Key: "decoy-e-07", Val: Decoy}
+	after := seqx.Field{M: "Str", Key: "after", Val: Decoy}
+	for variant, p := range []seqx.Program{
+		{Entry: entryLog, Fields: []seqx.Field{before, f, after}, Final: send},
+		{Steps: []seqx.Step{{Op: "With", Fields: []seqx.Field{before}}}, Entry: entryLog, Fields: []seqx.Field{f, after}, Final: send},
+		{Steps: []seqx.Step{{Op: "With", Fields: []seqx.Field{before, f}}}, Entry: entryLog, Fields: []seqx.Field{after}, Final: send},
+	} {
+		if variant == 2 && !seqx.HasContextForm(f) {
+			continue
+		}
+		out := seqx.Run(p)
+		c.r.Transitions++
+		desc := fmt.Sprintf("%s between two decoy text fields (variant %d)", f, variant)
+		if out.Panic != "" || len(out.Lines) != 1 {
+			c.r.Violation("", "neighbours/run/"+f.M, fmt.Sprintf("%s: panic %q, %d writes", desc, out.Panic, len(out.Lines)), p.String())
+			continue
+		}
+		c.r.Eval("nb|"+string(out.Lines[0]), true)
+		root, err := jsonstrict.ParseLine(out.Lines[0])
+		if err != nil {
+			c.r.Violation("", "neighbours/invalid/"+f.M, fmt.Sprintf("%s: output %q is not valid JSON: %v", desc, out.Lines[0], err), p.String())
+			continue
+		}
+		if err := seqx.MatchFields(root, seqx.FieldsExp([]seqx.Field{before, f, after})); err != nil {
+			c.r.Violation("", "neighbours/value/"+f.M, fmt.Sprintf("%s: %v; output %q", desc, err, out.Lines[0]), p.String())
+		}
+	}
+}
+
 func (c *c02) value(f seqx.Field, settings []int, eps []entryPoint) {
 	c.idx++
 	if c.idx%int64(c.n) != int64(c.shard) {
@@ -357,6 +394,19 @@ func runC02() {
 			}
 			for _, k := range seqx.KeyClasses {
 				c.value(seqx.Field{M: m, Key: k, Val: vals[len(vals)-1]}, nil, c.eps[:4])
+			}
+		}
+		// neighbours: every class value of every method between two text fields whose content looks like the
+		// encodings of other types (exponents, escapes, literals, separators) - an encoder that post-processes the
+		// buffer it appends to, instead of what it appended, damages them or is misled by them; on an event and
+		// with the first decoy in the logger's context
+		for _, m := range seqx.EventMethods() {
+			vals := seqx.ClassValues(m)
+			if vals == nil || m == "Err" {
+				continue
+			}
+			for _, v := range vals {
+				c.neighbours(seqx.Field{M: m, Key: "key", Val: v})
 			}
 		}
 		// containers and marshalers, including their nil / empty forms ("nil as null"), through every entry point
